@@ -21,6 +21,11 @@ from engine.pyvc.core import (Dyn, Ref, R, B, I, Ext, Unknown, Unsupported,
                               NeedFork, PyRaise, const_of, Outcome)
 from contracts.py.extern_cvxopt import LIB as L
 
+# texts of obligations that were refuted because the code is not of the
+# documented FORM (the goal was the constant false: no counter-model), as
+# opposed to a condition that z3 refuted with values
+FORM_REFUTED = set()
+
 
 class Opd:
     """an operand (self or other)"""
@@ -102,6 +107,8 @@ def obligations():
     obs = []
 
     def add(fn, oid, kind, status, text, line=0, detail=None):
+        if status == 'refuted':
+            FORM_REFUTED.add(text)      # decided by the shape of the result
         obs.append({'id': 'modeling.py:%s:%s:%s' % (fn, kind, oid),
                     'kind': kind, 'status': status, 'text': text,
                     'line': line, 'model': None, 'detail': detail,
@@ -348,6 +355,8 @@ def constraint_init_obligations(timeout_ms=10000):
         r = ex.check(pc, [z3.Not(goal)], timeout=timeout_ms)
         st_ = 'proved' if r == z3.unsat else ('refuted' if r == z3.sat
                                               else 'undecided')
+        if st_ == 'refuted' and z3.is_false(z3.simplify(goal)):
+            FORM_REFUTED.add(text)
         key = (kind, text)
         if key not in seen or rank[st_] > rank[seen[key][0]]:
             seen[key] = (st_, line)
@@ -536,6 +545,8 @@ def dot_obligations(timeout_ms=10000):
         r = ex.check(pc, [z3.Not(goal)], timeout=timeout_ms)
         st_ = 'proved' if r == z3.unsat else ('refuted' if r == z3.sat
                                               else 'undecided')
+        if st_ == 'refuted' and z3.is_false(z3.simplify(goal)):
+            FORM_REFUTED.add(text)
         if kind == 'covered' and st_ != 'proved':
             st_ = 'undecided'
         key = (kind, text)
